@@ -139,6 +139,7 @@ func runC16(c *Check, rng *rand.Rand) {
 			script.Forget(r.Keys...)
 		}
 	}
+	c16handshake(c, rng)
 	// a timed-out request whose node is lost later, while other requests are in flight
 	c15compound(c, rng, c16T)
 	c.MinEvals = 20
@@ -362,4 +363,69 @@ func classShape(cs c16case) string {
 		return "split-request"
 	}
 	return "single-key"
+}
+
+// c16handshake: with a redis password every backend connection the proxy dials starts
+// with an AUTH exchange. Requests written behind a handshake that is still in progress
+// (fresh connection after a loss; the node answers AUTH a little late) to a node that
+// then never answers them must time out like any other: one error each, in position.
+func c16handshake(c *Check, rng *rand.Rand) {
+	env, err := NewEnv(EnvOpt{Masters: 3, Cfg: ProxyCfg{Timeout: c16T, Password: "pw16"}})
+	must(err, "start env")
+	defer env.Close()
+	script := NewScript()
+	env.Cl.SetHandler(script.Handler)
+	env.Cl.HandshakeMode = "merge" // the AUTH reply is written ~30 ms after AUTH arrived
+	for rep := 0; rep < c.Pick(6, 40) && env.P.Alive(); rep++ {
+		victim := env.T.Nodes[rep%3]
+		other := env.T.Nodes[(rep+1)%3]
+		victim.Node.KillConns()
+		env.Barrier()
+		n := 2 + rng.Intn(4)
+		var batch []byte
+		var keys []string
+		var gates []*Gate
+		for i := 0; i < n; i++ {
+			k := Key(slotOf(victim, rng), newToken("hs"))
+			g := NewGate()
+			script.Plan(k).Gate = g
+			keys = append(keys, k)
+			gates = append(gates, g)
+			batch = append(batch, Req("GET", k)...)
+		}
+		ok2 := Key(slotOf(other, rng), newToken("hs"))
+		batch = append(batch, Req("GET", ok2)...)
+		cl, err := env.Dial()
+		must(err, "dial")
+		cl.Send(batch)
+		ok := cl.WaitReplies(n+1, time.Duration(c16T)*time.Millisecond+8*time.Second)
+		s := cl.Snapshot()
+		c.Eval(1)
+		c.Distinct(fmt.Sprintf("behind-handshake/%d", n))
+		wit := map[string]interface{}{"stalled_requests_behind_a_fresh_handshake": n, "received": valStrings(s.Replies), "password": true}
+		switch {
+		case !ok:
+			c.Violate(Violation{Class: "missing-replies-after-timeout", Shape: "requests-behind-a-handshake",
+				Detail: fmt.Sprintf("%d requests were written to a freshly dialled, still authenticating connection of a node that then never answered: %d of %d replies %d ms + 8 s later", n, len(s.Replies), n+1, c16T), Witness: wit})
+		default:
+			bad := false
+			for i := 0; i < n; i++ {
+				if s.Replies[i].Val.Kind != '-' {
+					bad = true
+				}
+			}
+			if bad || !bytes.Equal(s.Replies[n].Val.Raw, BulkReply([]byte("v:"+ok2))) {
+				c.Violate(Violation{Class: "wrong-reply-around-timeout", Shape: "requests-behind-a-handshake", Detail: "expected an error per stalled request and the normal reply for the request on the healthy node", Witness: wit})
+			} else {
+				c.Count("timeouts_behind_handshake_verified", 1)
+			}
+		}
+		for _, g := range gates {
+			g.Open()
+		}
+		env.Barrier()
+		cl.Close()
+		script.Forget(keys...)
+		script.Forget(ok2)
+	}
 }
